@@ -491,6 +491,24 @@ func (in *Interp) crcFold(state *Term, data []Value) *Term {
 	return state
 }
 
+// modelDeferrable asks a model channel's owner whether it is a not-yet-due
+// one-shot timer (method Deferrable() bool); other channels are never deferrable.
+func (in *Interp) modelDeferrable(ch *Chan) bool {
+	if ch == nil || ch.Kind != "model" {
+		return false
+	}
+	owner, ok := ch.Data.(Iface)
+	if !ok {
+		return false
+	}
+	m := in.lookupMethod(owner.T, "Deferrable")
+	if m == nil {
+		return false
+	}
+	r, ok := in.callFunction(m, []Value{owner.V}, nil, in.top).(*Term)
+	return ok && r.IsTrue()
+}
+
 func mkModelChan(in *Interp, fr *frame, args []Value) Value {
 	return &Chan{Kind: "model", Data: args[0]}
 }
